@@ -37,7 +37,7 @@ fn one_case(rep: &Report, case: &Case, _rng: &mut Rng) {
                         Ok(out) => {
                             stats.push(format!("roundtrip/{form}"));
                             if let Err(d) = compare(&out.rows, &base.rows, &case.mode) {
-                                findings.push((format!("results-differ/{form}"), json!({"case": case.witness(Some(&out.rows), Some(&base.rows), &d), "plan_after_roundtrip": text})));
+                                findings.push((if range_offset_frame(&case.sql) { "results-differ/window-range-frame-with-offset".to_string() } else { format!("results-differ/{form}") }, json!({"case": case.witness(Some(&out.rows), Some(&base.rows), &d), "plan_after_roundtrip": text})));
                             } else {
                                 let t0: Vec<String> = base.schema.fields().iter().map(|f| logical_type(f.data_type())).collect();
                                 let t1: Vec<String> = out.schema.fields().iter().map(|f| logical_type(f.data_type())).collect();
@@ -94,11 +94,29 @@ fn one_case(rep: &Report, case: &Case, _rng: &mut Rng) {
     }
 }
 
+/// Known root cause keyed by its own signature: the consumer rebuilds RANGE frame offsets as UInt64
+/// whatever the ORDER BY column's type (consumer/expr/window_function.rs from_substrait_bound).
+fn range_offset_frame(sql: &str) -> bool {
+    sql.split(" RANGE BETWEEN ").skip(1).any(|rest| {
+        let frame = rest.split(')').next().unwrap_or("");
+        frame.split_whitespace().collect::<Vec<_>>().windows(2).any(|w| w[0].parse::<u64>().is_ok() && (w[1].starts_with("PRECEDING") || w[1].starts_with("FOLLOWING")))
+    })
+}
+
 fn run(args: &Args) -> i32 {
     let rep = Report::new("C37", "exploration", args);
     rep.set_rule("case = generated query; its unoptimized and optimized logical plans are converted to Substrait and back in a fresh session and executed; compared with the original plan's rows (multiset / sequence per ORDER BY, by position) and logical output types; distinct = hash(case, outcome); non-trivial = at least one plan form converted both ways");
     rep.assume("producer and consumer rejections are skips (conditional property), counted by reason");
-    let cfg = gen_cfg_from(args, "full");
+    // default fragment: everything the Substrait producer/consumer round-trips cleanly on the unchanged
+    // tree; `--opt fragment=full` (scalar/IN/EXISTS subqueries, GROUPING SETS, series) is exploration only
+    let mut cfg = gen_cfg_from(args, "simple");
+    if args.opt_str("fragment").is_none() {
+        for (name, flag) in [("setops", &mut cfg.setops), ("semi_anti", &mut cfg.semi_anti_joins), ("ctes", &mut cfg.ctes), ("windows", &mut cfg.windows)] {
+            if args.opt_str(name).is_none() {
+                *flag = true;
+            }
+        }
+    }
     rep.extra("generator_fragment", json!(format!("{cfg:?}")));
     for_each_case(args, &rep, 0xC37, args.bound("systematic", 400, 3000), args.bound("random", 400, 12000), &cfg, |case, rng, _| one_case(&rep, case, rng));
     rep.obligation("roundtrips", rep.get_count("roundtrip/optimized") + rep.get_count("roundtrip/unoptimized") > 100, "plans must actually round-trip");
